@@ -305,8 +305,47 @@ def units_for(chk, F):
                "a name is appended to the listing outside the dimensionality filter without requiring exponent 1 (%d extra push sites)" % len(outside))
     # grouping: flush on category change and after the loop
     groups = [x for x in fl if H.expr_str(x[0]) == OUT]
+    srt = [c for c in H.method_calls(arm["body"]) if c["name"] in ("sort", "sort_by", "sort_by_key") and (H.local_name(c["recv"]) or ("",))[0] == OUT]
+    chunked = [c for c in H.method_calls(arm["body"], "chunk_by") if (H.local_name(c["recv"]) or ("",))[0] == OUT]
+    if len(groups) != 1 and len(chunked) == 1 and chunked[0]["args"] and chunked[0]["args"][0].get("k") == "Closure":
+        # the same grouping with std's slice::chunk_by: maximal runs of neighbours for which the closure holds - every element is in
+        # exactly one run, the last run included - when the closure is `a.<category> == b.<category>` of its two parameters and every
+        # run is turned into a group (map + collect, nothing dropped in between)
+        cb = chunked[0]
+        cl = cb["args"][0]
+        body = cl["body"]
+        while body.get("k") in ("Block", "DropTemps", "Paren") and (body.get("expr") if body.get("k") == "Block" else body.get("e")) and not body.get("stmts"):
+            body = body.get("expr") if body.get("k") == "Block" else body["e"]
+        pnames = [p_.get("name") for p_ in cl.get("params", [])]
+
+        def comp(e):
+            while e.get("k") in ("AddrOf", "DropTemps", "Paren") and e.get("e"):
+                e = e["e"]
+            while e.get("k") == "Unary" and e.get("op") == "Deref":
+                e = e.get("a") or e.get("e")
+            if e.get("k") == "Field" and (e.get("e") or {}).get("k") == "Path":
+                return (H.local_name(e["e"]) or (None,))[0], e["name"]
+            return None, None
+        same_key = False
+        if body.get("k") == "Binary" and body.get("op") == "Eq" and len(pnames) == 2 and all(pnames):
+            (la, fa), (lb, fb) = comp(body["a"]), comp(body["b"])
+            same_key = {la, lb} == set(pnames) and fa == fb and fa is not None
+        users = [m_ for m_ in H.method_calls(arm["body"]) if any(x is cb for x in hir_walk(m_["recv"]))]
+        names = [m_["name"] for m_ in users]
+        kept = "map" in names and "collect" in names and not [n_ for n_ in names if n_ in ("filter", "filter_map", "skip", "take", "step_by", "skip_while", "take_while", "rev")]
+        mp = next((m_ for m_ in users if m_["name"] == "map"), None)
+        inner_drop = [m_["name"] for m_ in H.method_calls(mp["args"][0]) if m_["name"] in ("filter", "filter_map", "skip", "take", "step_by", "skip_while", "take_while", "dedup")] if mp and mp["args"] else ["?"]
+        gline = cb["line"]
+        chk.decide(same_key and kept, "units-for-filter", FK, "flush-on-change-and-at-end", "%s:%d" % (fn.file, gline),
+                   "the sorted list is cut into maximal runs of one category (slice::chunk_by on the category component) and every run becomes a group",
+                   "chunk_by grouping: the closure is not `a.category == b.category` of its two parameters, or runs are dropped before they are collected (%s)" % names)
+        chk.decide(not inner_drop, "units-for-filter", FK, "every-name-kept", "%s:%d" % (fn.file, gline), "every name of a run is put into its group",
+                   "names of a run are filtered before they are put into the group (%s)" % inner_drop)
+        chk.decide(len(srt) == 1 and line < srt[0]["line"] < gline, "units-for-filter", FK, "sorted-before-grouping", "%s:%d" % (fn.file, srt[0]["line"] if srt else 0),
+                   "the list is sorted by category before grouping (each category forms one group)", "the listing is not sorted between filtering and grouping")
+        return
     if len(groups) != 1:
-        raise AnchorLost("UnitsFor arm: no grouping loop over `out`")
+        raise AnchorLost("UnitsFor arm: no grouping loop over `out` (and no `out.chunk_by(..)`)")
     git, gpat, gbody, gline, gloop = groups[0]
     # roles by use: CUR receives every name (a top-level push of the loop body), CAT receives the flushed groups
     tops = [n for k, n in H.stmts_of(gbody) if k in ("expr", "tail") and n.get("k") == "MethodCall" and n["name"] == "push" and H.local_name(n["recv"])]
